@@ -44,8 +44,8 @@ pub(crate) struct TcpConnectionMeta {
     pub user_agent: Option<String>,
 }
 
-/// The TLS domain of an authenticated client may start with its credentials label
-/// (`<credentials>.<host>`): it is shown scrubbed
+/// The TLS domain may start with the client's credentials label (`<credentials>.<host>`),
+/// whether or not anything authenticated the request: it is always shown scrubbed
 impl std::fmt::Debug for TcpConnectionMeta {
     fn fmt(&self, f: &mut std::fmt::Formatter<'_>) -> std::fmt::Result {
         f.debug_struct("TcpConnectionMeta")
@@ -54,11 +54,7 @@ impl std::fmt::Debug for TcpConnectionMeta {
             .field("auth", &self.auth)
             .field(
                 "tls_domain",
-                &if self.auth.is_some() {
-                    crate::net_utils::scrub_sni(self.tls_domain.clone())
-                } else {
-                    self.tls_domain.clone()
-                },
+                &crate::net_utils::scrub_sni(self.tls_domain.clone()),
             )
             .field("user_agent", &self.user_agent)
             .finish()
